@@ -11,7 +11,7 @@
    Theorems are for every name type with a correct equality test (C12_names_decidable: byte strings qualify),
    every table type, every genome size and every number of groups. *)
 From Coq Require Import ZArith List Bool String.
-From BNP Require Import Base.Prims Model.C12 Corr.C12 Proofs.C12 Proofs.C12_groupby Proofs.C12_pull Proofs.C12_e2e Proofs.C12_link Gen.C12 Bridge.C12.
+From BNP Require Import Base.Prims Model.C12 Corr.C12 Proofs.C12 Proofs.C12_groupby Proofs.C12_pull Proofs.C12_fol Proofs.C12_e2e Proofs.C12_slots Proofs.C12_link Gen.C12 Bridge.C12.
 Import ListNotations.
 Open Scope Z_scope.
 
@@ -131,7 +131,10 @@ Theorem C12_genome_exact_ahead :
 Proof. intros name neqb Heq P empty G I D. exact (genome_exhaustive_ahead name neqb Heq P empty G I D). Qed.
 Print Assumptions C12_genome_exact_ahead.
 
-(* ---- MultiStream / SynchedStream ---- *)
+(* ---- MultiStream / SynchedStream ----
+   `synched` is the code BEFORE notes/C12.fix-4.diff (pinned history: C12_multistream_exact, C12_zip_second_partial,
+   C12_zip_second_refuted, C12_zip_second_never_misattributes); `synched_fol` is the code at /repo HEAD — see
+   C12_multistream_every_consumer_exact, C12_zip_second_exact, C12_zip_every_stream_exact below. ---- *)
 (* an attribute iterated to its end (the first stream of forbes/jaccard's zip): full property *)
 Theorem C12_multistream_exact :
   forall (name : Type) (neqb : name -> name -> bool), (forall a b, neqb a b = true <-> a = b) ->
@@ -189,6 +192,58 @@ Theorem C12_multistream_exact_ahead :
 Proof. intros name neqb Heq P empty order gs. exact (multistream_exhaustive_ahead name neqb Heq P empty order gs). Qed.
 Print Assumptions C12_multistream_exact_ahead.
 
+(* ---- the code at /repo HEAD (notes/C12.fix-4.diff): the following group's name goes through the two guards before
+   `yield data`.  Its trace is, for EVERY input, the trace of the look-ahead machine of fix-3 ... ---- *)
+Theorem C12_synched_following_is_lookahead :
+  forall (name : Type) (neqb : name -> name -> bool), (forall a b, neqb a b = true <-> a = b) ->
+  forall (P : Type) (empty : P) (order : list name) (gs : list (name * P)),
+    synched_fol name neqb P empty order gs = synched_ahead name neqb P empty order gs.
+Proof. exact synched_fol_is_ahead. Qed.
+Print Assumptions C12_synched_following_is_lookahead.
+(* ... and THE UNGUARDED STATEMENT: every group order, unknown names anywhere, every consumer pull depth.
+   Order-compatible data: a consumer taking k items gets exactly the first k tables of the per-contig assignment (all of
+   them from k = number of contigs on, and when run to the end).  Data that must raise (order disagreement / unknown
+   contig): every consumer that takes at least one item per contig — list(ms.a), a zip partner in ANY position,
+   get_contingency_table — gets the exception; nothing completes silently. *)
+Theorem C12_multistream_every_consumer_exact :
+  forall (name : Type) (neqb : name -> name -> bool), (forall a b, neqb a b = true <-> a = b) ->
+  forall (P : Type) (empty : P) (order : list name) (gs : list (name * P)),
+    NoDup order -> NoDup (map fst gs) -> order <> [] ->
+    match spec_sync name neqb P empty order [] gs with
+    | Some a => pull_all (synched_fol name neqb P empty order gs) = Done a
+                /\ forall k, pull_n k (synched_fol name neqb P empty order gs) = Done (firstn k a)
+    | None => (exists c, pull_all (synched_fol name neqb P empty order gs) = Err c)
+              /\ forall k, (List.length order <= k)%nat -> exists c, pull_n k (synched_fol name neqb P empty order gs) = Err c
+    end.
+Proof. exact multistream_fol_any_depth. Qed.
+Print Assumptions C12_multistream_every_consumer_exact.
+(* the instance that was refuted for the old code (C12_zip_second_refuted): the second stream of a zip, one pull per contig *)
+Theorem C12_zip_second_exact :
+  forall (name : Type) (neqb : name -> name -> bool), (forall a b, neqb a b = true <-> a = b) ->
+  forall (P : Type) (empty : P) (order : list name) (gs : list (name * P)),
+    NoDup order -> NoDup (map fst gs) -> order <> [] ->
+    match spec_sync name neqb P empty order [] gs with
+    | Some a => pull_n (List.length order) (synched_fol name neqb P empty order gs) = Done a
+    | None => exists c, pull_n (List.length order) (synched_fol name neqb P empty order gs) = Err c
+    end.
+Proof. exact multistream_fol_npull. Qed.
+Print Assumptions C12_zip_second_exact.
+(* zip(ms.s1, …, ms.sm, ms.lengths) over ANY number m of synchronised streams of one MultiStream, as the pull machine
+   runs it (sources asked in list order per round, first exhausted source ends, exceptions pass): if every stream's data
+   has an assignment, the machine returns one row per contig and column i is exactly stream i's per-contig
+   assignment; if ANY stream — in whatever position — has an order disagreement or an unknown contig, the zip raises. *)
+Theorem C12_zip_every_stream_exact :
+  forall (order : list bname) (gss : list (list (bname * ids))) (sizes : list Z),
+    NoDup order -> order <> [] -> Forall (fun gs => NoDup (map fst gs)) gss -> List.length sizes = List.length order ->
+    if forallb (spec_some order) gss
+    then exists rows, lockstep item (S (List.length order)) (zip_all_sources order gss sizes) = Done rows
+           /\ List.length rows = List.length order
+           /\ forall i gs, nth_error gss i = Some gs ->
+                exists a, spec_sync bname zlist_eqb ids [] order [] gs = Some a /\ column (ISize 0) i rows = map ITable a
+    else exists c, lockstep item (S (List.length order)) (zip_all_sources order gss sizes) = Err c.
+Proof. exact multistream_zip_all. Qed.
+Print Assumptions C12_zip_every_stream_exact.
+
 (* ---- left_join(contig list, grouped data) run to its end: every contig with its own table or None, or an
    AssertionError ---- *)
 Theorem C12_left_join_exact :
@@ -245,7 +300,7 @@ Print Assumptions C12_end_to_end.
    from genome_context.py, multistream.py, left_join.py, groupby_func.py, genomic_track.py) are the rules the model is
    built from — which names are ignored / included, the order that is walked, skip / raise / yield in _included_groups,
    the sort-order and left-over tests of iter_chromosomes and that they run BEFORE the yield, SynchedStream's guards and
-   skipping loop (and that its look-ahead is absent), left_join's two tests, that a group boundary is an inequality of
+   skipping loop, its shape (fix-4: `_with_following` pairs, the following group's name through the same guards before `yield data`), left_join's two tests, that a group boundary is an inequality of
    the WHOLE adjacent keys, the first-equals-last fast path, the join key, and get_data asking the name stream first;
    and the model variants in use (genome_trace_head, synched_head) are the ones these facts select.  Bridge/C12.v also
    proves that the model's state machines take exactly the steps these rules prescribe (the lemmas whose names start with s_). ---- *)
@@ -269,6 +324,9 @@ Theorem C12_source_tie :
   /\ gen_order_drops_underscore_names = m_order_drops_underscore_names
   /\ gen_walk_checks_before_yield = m_walk_checks_before_yield
   /\ gen_sync_checks_before_yield = m_sync_checks_before_yield
+  /\ (gen_sync_shape = m_sync_shape
+      /\ (forall h a b : bool, gen_sync_following_check h a b = m_sync_following_check h a b)
+      /\ gen_with_following_pairs = m_with_following_pairs)
   /\ gen_change_offsets = m_change_offsets
   /\ gen_join_key_and_payload_index = m_join_key_and_payload_index
   /\ gen_get_data_names_first = m_get_data_names_first
@@ -282,9 +340,9 @@ Theorem C12_source_tie :
   /\ (gen_borders_compare_neighbouring_rows = m_borders_compare_neighbouring_rows
       /\ gen_with_ignored_added_is_functional = m_with_ignored_added_is_functional)
   /\ genome_trace_head = genome_trace (negb m_order_drops_underscore_names) m_walk_checks_before_yield
-  /\ (forall order gs, synched_head order gs
-        = if m_sync_checks_before_yield then synched_ahead bname zlist_eqb ids [] order gs
-          else synched bname zlist_eqb ids [] order gs).
+  /\ (forall order gs, synched_head order gs = synched_by_shape m_sync_shape order gs)
+  /\ (forall order gs, synched_by_shape 2 order gs = synched_fol bname zlist_eqb ids [] order gs)
+  /\ (forall order gs, synched_by_shape 0 order gs = synched bname zlist_eqb ids [] order gs).
 Proof.
   exact (conj (fun a b =>
            conj (b_filter_ignore_underscores a) (conj (proj1 (b_ctx_is_ignored a)) (conj (proj2 (b_ctx_is_ignored a))
@@ -292,8 +350,8 @@ Proof.
           (conj (b_walk_leftover_error a) (conj (b_sync_check a b) (conj (b_sync_keeps_skipping a b) (conj (b_lj_gets_default a)
           (conj (b_lj_final_ok a) (b_change_at a)))))))))))))
          (conj b_fast_path (conj b_order_drops_underscore_names (conj b_walk_checks_before_yield
-         (conj b_sync_checks_before_yield (conj b_change_offsets (conj b_join_key_and_payload_index
-         (conj b_get_data_names_first (conj b_pull_machine (conj b_pull_orders (conj b_ms_table_is_one_chunk_stream (conj b_borders_and_deriving s_switches)))))))))))).
+         (conj b_sync_checks_before_yield (conj (conj b_sync_shape (conj b_sync_following_check b_with_following_pairs)) (conj b_change_offsets (conj b_join_key_and_payload_index
+         (conj b_get_data_names_first (conj b_pull_machine (conj b_pull_orders (conj b_ms_table_is_one_chunk_stream (conj b_borders_and_deriving s_switches))))))))))))).
 Qed.
 Print Assumptions C12_source_tie.
 
@@ -344,29 +402,48 @@ Theorem C12_head_genome_end_to_end :
 Proof. exact head_genome_end_to_end. Qed.
 Print Assumptions C12_head_genome_end_to_end.
 
-(* ---- MultiStream at /repo HEAD, end to end.  An attribute run to its end (list(ms.a), the FIRST stream of
-   forbes/jaccard): the full property.  The SECOND stream of the zip (known finding
-   C12-multistream-second-stream-unchecked): exact when the data is order-compatible; otherwise it may complete
-   (C12_zip_second_refuted) — but even then no entry is ever delivered under another contig
-   (C12_zip_second_never_misattributes). ---- *)
+(* ---- MultiStream at /repo HEAD (with notes/C12.fix-4.diff), end to end from the chunk stream: for every contig list
+   (at least one contig), every data set whose contigs are contiguous, every cut into non-empty chunks — the attribute run
+   to its end, a consumer of ANY pull depth, and the second stream of forbes/jaccard's zip as the pull machine computes
+   it all get the exact per-contig assignment, or an exception.  No guard on the data: the former known finding
+   C12-multistream-second-stream-unchecked is gone. ---- *)
 Theorem C12_head_multistream_end_to_end :
+  forall (order : list bname) (chunks : list (list (bname * Z))),
+    NoDup order -> order <> [] -> Forall (fun c => c <> []) chunks -> contiguous bname (map fst (List.concat chunks)) ->
+    let D := runs bname zlist_eqb (List.concat chunks) in
+    let t := synched_head order (grouped bname zlist_eqb chunks) in
+    match spec_sync bname zlist_eqb ids [] order [] D with
+    | Some a => pull_all t = Done a
+                /\ (forall k, pull_n k t = Done (firstn k a))
+                /\ forall ya sizes, List.length ya = List.length sizes -> List.length sizes = List.length order ->
+                     machine_zip_second (ya, Stop) sizes t = Done a
+    | None => (exists c, pull_all t = Err c)
+              /\ (forall k, (List.length order <= k)%nat -> exists c, pull_n k t = Err c)
+              /\ forall ya sizes, List.length ya = List.length sizes -> List.length sizes = List.length order ->
+                     exists c, machine_zip_second (ya, Stop) sizes t = Err c
+    end.
+Proof. exact head_multistream_end_to_end. Qed.
+Print Assumptions C12_head_multistream_end_to_end.
+(* history: the same statement for the code before fix-4 (shape 0) held only in this guarded form — the second stream
+   of the zip exact when the data is order-compatible; otherwise it could complete (C12_zip_second_refuted), though even
+   then no entry was ever delivered under another contig (C12_zip_second_never_misattributes) *)
+Theorem C12_pinned_multistream_end_to_end :
   forall (order : list bname) (chunks : list (list (bname * Z))),
     NoDup order -> Forall (fun c => c <> []) chunks -> contiguous bname (map fst (List.concat chunks)) ->
     let D := runs bname zlist_eqb (List.concat chunks) in
-    let t := synched_head order (grouped bname zlist_eqb chunks) in
+    let t := synched_by_shape 0 order (grouped bname zlist_eqb chunks) in
     match spec_sync bname zlist_eqb ids [] order [] D with
     | Some a => pull_all t = Done a
                 /\ forall ya sizes, List.length ya = List.length sizes -> List.length sizes = List.length order ->
                      machine_zip_second (ya, Stop) sizes t = Done a
     | None => exists c, pull_all t = Err c
     end.
-Proof. exact head_multistream_end_to_end. Qed.
-Print Assumptions C12_head_multistream_end_to_end.
+Proof. exact pinned_multistream_end_to_end. Qed.
+Print Assumptions C12_pinned_multistream_end_to_end.
 (* data handed to MultiStream / forbes / jaccard as ONE TABLE IN MEMORY is wrapped as the one-chunk stream of itself
    (`NpDataclassStream([value], …)`) and synchronised like any stream: for contiguous data the grouped stream, hence the
    whole trace and every consumer observation, is the same as for any cut of the same entries into chunks — so
-   C12_head_multistream_end_to_end, the guarded second-stream statement and C12_zip_second_never_misattributes hold
-   verbatim for the in-memory route *)
+   C12_head_multistream_end_to_end holds verbatim for the in-memory route *)
 Theorem C12_table_is_one_chunk_stream :
   forall (order : list bname) (chunks : list (list (bname * Z))),
     Forall (fun c => c <> []) chunks -> contiguous bname (map fst (List.concat chunks)) ->
@@ -383,24 +460,31 @@ Theorem C12_zip_second_never_misattributes :
 Proof. exact synched_never_misattributes. Qed.
 Print Assumptions C12_zip_second_never_misattributes.
 
+(* the same for the code at /repo HEAD (repaired loop), at EVERY pull depth and for every data set, including data that
+   must raise and a consumer that stops early: whatever is delivered is delivered under its own contig *)
+Theorem C12_multistream_never_misattributes :
+  forall (name : Type) (neqb : name -> name -> bool), (forall a b, neqb a b = true <-> a = b) ->
+  forall (P : Type) (empty : P) (order : list name) (gs : list (name * P)) (k : nat) (ys : list P),
+    NoDup (map fst gs) ->
+    pull_n k (synched_fol name neqb P empty order gs) = Done ys ->
+    Forall2 (fun c y => y = empty \/ y = lookup name neqb P empty c gs) (firstn (List.length ys) order) ys.
+Proof. exact synched_fol_never_misattributes. Qed.
+Print Assumptions C12_multistream_never_misattributes.
+
 (* ---- the two verdicts of the check (Corr/C12.v): on every well-formed case (gen_ok: the chunks are the groups,
    group names distinct = the precondition, no empty chunk or group) where the implementation agrees with the model,
-   the property holds — genome route (at least one included contig) and left_join route unconditionally; MultiStream
-   route: the attribute run to its end always, the zip's second stream and the contingency table whenever the data is
-   order-compatible (the rest is the known finding). ---- *)
+   the property holds — all three routes, unconditionally (genome route: at least one included contig; MultiStream
+   route: at least one contig). ---- *)
 Theorem C12_model_ok_implies_spec_ok_genome :
   forall c : case, k_route c = 0 -> gen_ok c = true ->
     ctx_included bname zlist_eqb has_underscore (k_keepall c) (k_genome c) (k_extra c) <> [] ->
     model_ok c = true -> spec_ok c = true.
 Proof. exact genome_route_link. Qed.
 Print Assumptions C12_model_ok_implies_spec_ok_genome.
-Theorem C12_model_ok_implies_spec_ok_multistream_partial :
-  forall c : case, k_route c = 1 -> gen_ok c = true -> model_ok c = true ->
-    let exp := spec_sync bname zlist_eqb ids [] (k_genome c) [] (k_groups c) in
-    all_ok (meets zll_eqb exp) (k_mslist c) = true /\ all_ok (meets zll_eqb exp) (k_mslist_tab c) = true
-    /\ (exp <> None -> spec_ok c = true).
+Theorem C12_model_ok_implies_spec_ok_multistream :
+  forall c : case, k_route c = 1 -> gen_ok c = true -> k_genome c <> [] -> model_ok c = true -> spec_ok c = true.
 Proof. exact multistream_route_link. Qed.
-Print Assumptions C12_model_ok_implies_spec_ok_multistream_partial.
+Print Assumptions C12_model_ok_implies_spec_ok_multistream.
 Theorem C12_model_ok_implies_spec_ok_left_join :
   forall c : case, k_route c <> 0 -> k_route c <> 1 -> gen_ok c = true -> model_ok c = true -> spec_ok c = true.
 Proof. exact left_join_route_link. Qed.
@@ -422,13 +506,41 @@ Example C12_nonvacuous :
   /\ api_rows bname incl (genome_trace_head false genome [] chunks) = Done [(chr1, 0); (chr1, 1); (chr3, 3)].
 Proof. vm_compute. repeat split; reflexivity. Qed.
 
-(* non-vacuity of the machine statements: on the same concrete data the pull machine itself returns the rows, and on a
-   mis-ordered second stream it reproduces the known finding (completes, chr1's entry gone, nothing mislabelled) *)
+(* non-vacuity of the machine statements: on the same concrete data the pull machine itself returns the rows; on a
+   mis-ordered second stream the code before fix-4 (shape 0) completes with chr1's entry gone (the former finding), the
+   code at HEAD raises for the zip consumer as well as for the exhaustive one *)
 Example C12_machine_nonvacuous :
   let chr1 := unhex "63687231"%string in let chr2 := unhex "63687232"%string in
   let t := genome_trace_head false [chr1; chr2] [] [[(chr1, 0)]; [(chr1, 1); (chr2, 2)]] in
   machine_rows [chr1; chr2] [40; 40] t = Done [(chr1, 0); (chr1, 1); (chr2, 2)]
   /\ machine_flat [40; 40] t = Done [0; 1; 2]
-  /\ machine_zip_second ([[9]; [8]], Stop) [40; 40] (synched_head [chr1; chr2] [(chr2, [0]); (chr1, [1])]) = Done [[]; [0]]
-  /\ pull_all (synched_head [chr1; chr2] [(chr2, [0]); (chr1, [1])]) = Err E_SEEN.
+  /\ machine_zip_second ([[9]; [8]], Stop) [40; 40] (synched_by_shape 0 [chr1; chr2] [(chr2, [0]); (chr1, [1])]) = Done [[]; [0]]
+  /\ pull_all (synched_by_shape 0 [chr1; chr2] [(chr2, [0]); (chr1, [1])]) = Err E_SEEN
+  /\ machine_zip_second ([[9]; [8]], Stop) [40; 40] (synched_head [chr1; chr2] [(chr2, [0]); (chr1, [1])]) = Err E_SEEN
+  /\ pull_all (synched_head [chr1; chr2] [(chr2, [0]); (chr1, [1])]) = Err E_SEEN
+  /\ machine_zip_second ([[9]; [8]], Stop) [40; 40] (synched_head [chr1; chr2] [(chr1, [0]); (chr2, [1]); (unhex "63687255"%string, [2])]) = Err E_NOTIN.
+Proof. vm_compute. repeat split; reflexivity. Qed.
+
+(* non-vacuity of C12_multistream_every_consumer_exact / C12_zip_second_exact / C12_zip_every_stream_exact: contigs
+   chr1, chr2, chr3; stream A has data for chr1 and chr3, stream B for chr2 only, stream C is ordered chr3, chr1 and
+   stream U names an unknown contig after its last matched one.  Hypotheses hold; A alone at pull depths 0..4; the
+   three-column zip of A, B returns both assignments; with C or U in ANY position the zip raises. *)
+Example C12_zip_all_nonvacuous :
+  let chr1 := unhex "63687231"%string in let chr2 := unhex "63687232"%string in let chr3 := unhex "63687233"%string in
+  let chrU := unhex "63687255"%string in
+  let order := [chr1; chr2; chr3] in
+  let A := [(chr1, [0; 1]); (chr3, [2])] in let B := [(chr2, [5])] in
+  let C := [(chr3, [7]); (chr1, [8])] in let U := [(chr1, [3]); (chr3, [4]); (chrU, [6])] in
+  spec_sync bname zlist_eqb ids [] order [] A = Some [[0; 1]; []; [2]]
+  /\ spec_sync bname zlist_eqb ids [] order [] C = None /\ spec_sync bname zlist_eqb ids [] order [] U = None
+  /\ map (fun k => pull_n k (synched_head order A)) [0; 1; 3; 4]%nat
+     = [Done []; Done [[0; 1]]; Done [[0; 1]; []; [2]]; Done [[0; 1]; []; [2]]]
+  /\ pull_n 3 (synched_head order C) = Err E_SEEN /\ pull_n 3 (synched_head order U) = Err E_NOTIN
+  /\ pull_n 3 (synched_by_shape 0 order C) = Done [[]; []; [7]]
+  /\ pull_n 2 (synched_head order U) = Done [[3]; []]      (* stops early on data that must raise: own slots only *)
+  /\ lockstep item 4 (zip_all_sources order [A; B] [10; 20; 30])
+     = Done [[ITable [0; 1]; ITable []; ISize 10]; [ITable []; ITable [5]; ISize 20]; [ITable [2]; ITable []; ISize 30]]
+  /\ lockstep item 4 (zip_all_sources order [A; B; C] [10; 20; 30]) = Err E_SEEN
+  /\ lockstep item 4 (zip_all_sources order [A; U; B] [10; 20; 30]) = Err E_NOTIN
+  /\ lockstep item 4 (zip_all_sources order [C; A] [10; 20; 30]) = Err E_SEEN.
 Proof. vm_compute. repeat split; reflexivity. Qed.
